@@ -81,6 +81,10 @@ func getDescription(raw interface{}) string {
 		desc = getMapValueString(node, "Description.Value")
 	}
 	if desc != "" {
+		if !blockStringPrintable(desc) {
+			// a block string cannot hold this value unchanged
+			return quoteString(desc)
+		}
 		sep := ""
 		if strings.ContainsRune(desc, '\n') {
 			sep = "\n"
@@ -88,6 +92,38 @@ func getDescription(raw interface{}) string {
 		desc = join([]string{`"""`, desc, `"""`}, sep)
 	}
 	return desc
+}
+
+// blockStringPrintable reports whether s, written between triple quotes the
+// way getDescription does, is read back as exactly s: block strings have no
+// escapes except \""", normalise line terminators and drop blank first and
+// last lines and common indentation.
+func blockStringPrintable(s string) bool {
+	if strings.Contains(s, `"""`) {
+		return false
+	}
+	for _, r := range s {
+		if r < 0x20 && r != '\n' && r != '\t' {
+			return false
+		}
+	}
+	isBlank := func(line string) bool { return strings.Trim(line, " \t") == "" }
+	lines := strings.Split(s, "\n")
+	if isBlank(lines[0]) || isBlank(lines[len(lines)-1]) {
+		return false
+	}
+	if len(lines) == 1 {
+		// written as """s""": must not run into the closing quotes
+		return !strings.HasSuffix(s, `"`) && !strings.HasSuffix(s, `\`)
+	}
+	// written on lines of their own: some non-blank line must start at
+	// column one, or the common indentation is removed
+	for _, line := range lines {
+		if !isBlank(line) && line[0] != ' ' && line[0] != '\t' {
+			return true
+		}
+	}
+	return false
 }
 
 // quoteString prints s as a GraphQL string literal: only the escapes the
